@@ -33,6 +33,28 @@ def main(repo, out):
             if line == 'c => tmp.push(c)': continue
             note('unrecognised arm in Format for LitString: ' + line)
         if 'out.fmt(("\\"", tmp, "\\""))' not in fmt: note('unrecognised quoting in Format for LitString')
+    # the printer is pinned: nothing but the escaping loop between the braces (a fast path that skips it would be new code)
+    fb, _ = block_after(strip_comments(fmt), r'impl\s+Format\s+for\s+ast::LitString\s*')
+    if fb is None or not re.fullmatch(r'fnfmt<W:Write>\(&self,out:&mutFormatter<W>\)->Result\{letmuttmp=String::with_capacity\(2\*self\.string\.len\(\)\+1\);'
+                                      r'forcinself\.string\.chars\(\)\{matchc\{.*c=>tmp\.push\(c\),\}\}out\.fmt\(\("\\"",tmp,"\\""\)\)\}', nows(fb), re.S):
+        note('unrecognised body of Format for ast::LitString (only the escaping loop is expected)')
+    # metadata strings: ANM entry names through write_cstring / read_cstring_blockwise with block 16, STD names through 128-byte buffers
+    try:
+        rw = nows(strip_comments(open(repo + '/src/formats/anm/read_write.rs').read()))
+        st = strip_comments(open(repo + '/src/formats/std.rs').read())
+    except OSError:
+        rw = ''; st = ''; note('not found: src/formats/anm/read_write.rs or src/formats/std.rs')
+    for what, txt in (
+        ('ANM path write', 'letpath_offset=w.pos()?-entry_pos;w.write_cstring(&Encoded::encode(&entry.path,DEFAULT_ENCODING).map_err(|e|emitter.emit(e))?,16)?;'),
+        ('ANM path_2 write', 'ifletSome(path_2)=&entry.path_2{path_2_offset=w.pos()?-entry_pos;w.write_cstring(&Encoded::encode(path_2,DEFAULT_ENCODING).map_err(|e|emitter.emit(e))?,16)?;};'),
+        ('ANM path read', 'letpath=reader.read_cstring_blockwise(16)?.decode(DEFAULT_ENCODING).map_err(|e|emitter.emit(e))?;'),
+        ('ANM path_2 read', 'Some(n)=>{reader.seek_to(entry_pos+n.get())?;Some(reader.read_cstring_blockwise(16)?.decode(DEFAULT_ENCODING).map_err(|e|emitter.emit(e))?)},'),
+    ):
+        if txt not in rw: note('unrecognised %s in anm/read_write.rs' % what)
+    for fn, txt in (('read_string_128', 'r.read_cstring_exact(128,emitter)?.decode(DEFAULT_ENCODING).map(|x|sp!(x)).map_err(|e|emitter.as_sized().emit(e))'),
+                    ('write_string_128', 'letencoded=Encoded::encode_fixed_size(&s,DEFAULT_ENCODING,128).map_err(|e|emitter.as_sized().emit(e))?;f.write_all(&encoded.0)?;Ok(())')):
+        bb, _ = block_after(st, r'fn\s+' + fn + r'\b[^{;]*')
+        if bb is None or nows(bb) != txt: note('unrecognised %s in formats/std.rs' % fn)
     b, _ = block_after(par, r'pub\s+fn\s+parse_string_literal\b[^{]*')
     if b is None: note('not found: parse_string_literal'); b = ''
     mb, _ = block_after(b, r'if\s+escape\s*\{\s*escape\s*=\s*false;\s*match\s+c\s*')
